@@ -69,6 +69,13 @@ func ParseDump(dump string) []G {
 				g.Relevant = true
 				if g.Top == "" {
 					g.Top = fn
+					// drop the argument list (addresses differ from run to run)
+					if i := strings.LastIndex(g.Top, "("); i > 0 && strings.HasSuffix(g.Top, ")") {
+						g.Top = g.Top[:i]
+					}
+					if i := strings.Index(g.Top, " in goroutine "); i > 0 {
+						g.Top = g.Top[:i]
+					}
 				}
 			}
 			if isUnit && !strings.HasPrefix(l, "created by ") {
